@@ -517,6 +517,7 @@ func cmdCheck(args []string) int {
 	budgetOverride := fs.Duration("budget", 0, "")
 	treeHash := fs.String("tree", "", "")
 	instr := fs.String("instrumentation", "", "")
+	evidenceDir := fs.String("evidence-dir", "", "")
 	fs.Parse(args)
 	p := props.Registry[*propID]
 	if p == nil {
@@ -790,6 +791,9 @@ func cmdCheck(args []string) int {
 	ev["coverage"] = cov
 	eb, _ := json.MarshalIndent(ev, "", " ")
 	evDir := filepath.Join(*verifDir, "evidence")
+	if *evidenceDir != "" {
+		evDir = *evidenceDir
+	}
 	os.MkdirAll(evDir, 0o755)
 	if err := os.WriteFile(filepath.Join(evDir, p.ID+".json"), eb, 0o644); err != nil {
 		fmt.Fprintln(os.Stderr, "verif:", err)
